@@ -91,6 +91,30 @@ fn put_data(out: &mut Vec<u8>, data: &[u8]) {
 pub fn write(entries: &[(String, Vec<u8>)]) -> Vec<u8> {
 	let mut out = vec![];
 	for (name, data) in entries {
+		// a name of the form "<kind>!<name>" is a member that is not a regular file: dir, symlink, hardlink, fifo
+		if let Some((kind, rest)) = name.split_once('!') {
+			let flag = match kind {
+				"dir" => b'5',
+				"symlink" => b'2',
+				"hardlink" => b'1',
+				"fifo" => b'6',
+				_ => b'0',
+			};
+			let start = out.len();
+			put_header(&mut out, rest.as_bytes(), 0, flag);
+			if flag == b'2' || flag == b'1' {
+				// link name field, then the checksum again
+				let target = b"start.raw";
+				out[start + 157..start + 157 + target.len()].copy_from_slice(target);
+				for b in out[start + 148..start + 156].iter_mut() {
+					*b = b' ';
+				}
+				let sum: usize = out[start..start + 512].iter().map(|b| *b as usize).sum();
+				let cs = format!("{:06o}\0 ", sum);
+				out[start + 148..start + 156].copy_from_slice(cs.as_bytes());
+			}
+			continue;
+		}
 		let nb = name.as_bytes();
 		if nb.len() > 100 {
 			if nb.len() % 2 == 0 {
